@@ -674,6 +674,24 @@ def fuzz_inputs(rng):
         bub = np.array([delta])
         me = 0
         aeq = np.zeros((0, n))
+    if n >= 2 and rng.random() < 0.05:
+        # structured family: the gradient is dominated (by 6..12 decades) by
+        # a multiple of the normal of an inequality that is active at the
+        # origin, as when a run sits on a constraint with a huge multiplier:
+        # the projected gradient keeps few correct digits
+        tags.append("normal_dominated_gradient")
+        m = 1
+        aub = rng.standard_normal((1, n))
+        bub = np.zeros(1)
+        g = -10.0 ** rng.uniform(6, 12) * aub[0] * gs \
+            + gs * rng.standard_normal(n)
+        delta = float(scale * 10.0 ** rng.uniform(-2, 1))
+        bb = rng.standard_normal((n, n))
+        h = 0.5 * (bb + bb.T) * gs / delta * 10.0 ** rng.uniform(-2, 2)
+        xl = np.full(n, -np.inf)
+        xu = np.full(n, np.inf)
+        me = 0
+        aeq = np.zeros((0, n))
     bubn = rng.standard_normal(m) * scale
     beq = rng.standard_normal(me) * scale
     if n >= 3 and rng.random() < 0.06:
